@@ -416,7 +416,7 @@ impl<const N: usize, const C: usize> Read for Chunked<N, C> {
 }
 fn in_alphabet(c: u8, wide: bool) -> bool {
     c == b'a' || c == b' ' || c == b'\n' || c == b'\'' || c == b'\\' || c == 0xA0
-        || (wide && (c == b'"' || c == b'\t' || c == 0x0B || c == 0x85))
+        || (wide && (c == b'"' || c == b'\t' || c == 0x0B || c == 0x85 || c == 0x0C || c == 0x0D))   // FF and CR: isspace() members that are not separators
 }
 fn is_sep(c: u8) -> bool { c == b' ' || c == b'\n' || c == b'\t' }
 
@@ -553,7 +553,7 @@ ws_harness!(c05_ws_len3_split21, c05_ws_len3_split21_canary, 3, 2, [2, 1], false
 ws_harness!(c05_ws_len3_split111, c05_ws_len3_split111_canary, 3, 3, [1, 1, 1], false, 2, 7);
 // @harness props=C05 tier=quick cost=200 flags=nomem
 // @exec WhitespaceDelimitedArgumentReader::{new,next} — two calls
-// @sym 2 input bytes over the 10-letter alphabet (adds ", tab, VT, 0x85), one read()
+// @sym 2 input bytes over the 12-letter alphabet (adds ", tab, VT, 0x85, FF, CR), one read()
 // @bounds input of 2 bytes, chunking [2]
 ws_harness!(c05_ws_len2_wide, c05_ws_len2_wide_canary, 2, 1, [2], true, 2, 6);
 
